@@ -1,4 +1,4 @@
-(** Forged handles join the core language: destroys and probes, at world and archetype level, with ANY raw (key, generation) pair of 32-bit
+(** Forged handles join the core language: destroys, probes and to_direct conversions, at world and archetype level, with ANY raw (key, generation) pair of 32-bit
     words - never issued, stale, naming another or no archetype, generation zero, slot beyond the capacity -
     (C03 as the specification oracle reads it). *)
 From Coq Require Import NArith Lia Bool.
@@ -14,6 +14,8 @@ Definition l1_op (d : wdecl) (o : op) : bool :=
                 | OProbe (LArch b) KEnt TAny (RRaw key ver) => (b <? length (wd_archs d)) && (key <? 2^32)%N && (ver <? 2^32)%N
                 | ODestroy LWorld KEnt TAny (RRaw key ver) => (key <? 2^32)%N && (ver <? 2^32)%N
                 | ODestroy (LArch b) KEnt TAny (RRaw key ver) => (b <? length (wd_archs d)) && (key <? 2^32)%N && (ver <? 2^32)%N
+                | OToDirect LWorld KEnt TAny (RRaw key ver) => (key <? 2^32)%N && (ver <? 2^32)%N
+                | OToDirect (LArch b) KEnt TAny (RRaw key ver) => (b <? length (wd_archs d)) && (key <? 2^32)%N && (ver <? 2^32)%N
                 | _ => false
                 end.
 
@@ -388,6 +390,106 @@ Proof.
 Qed.
 
 
+(** to_direct with any raw pair, once the archetype that decides is known. *)
+Lemma todirect_raw_core cfg d qs st sst l key ver a ad s x sw :
+  wf_decl d -> Rel d st sst -> (key < 2^32)%N -> (ver < 2^32)%N ->
+  sw !! a = Some x -> ARel s x (issued st) -> SInv ad s ->
+  da_id ad = key_arch_id key ->
+  step cfg d qs st (OToDirect l KEnt TAny (RRaw key ver)) =
+     match to_direct cfg KEnt s (key, ver) with
+     | ROk (Some dh) => ret (add_directs st [dh]) (1%N :: o_handle dh)
+     | ROk None => ret st [0%N]
+     | RPanic p => ret st [2%N; pcode p]
+     | RUB => None
+     end ->
+  (forall se dk dv, find_sent (key, ver) (sa_live x) = Some se ->
+     spec_step cfg d qs sst (OToDirect l KEnt TAny (RRaw key ver)) [1%N; dk; dv] =
+       if negb (N.eqb (dkey_arch_id dk) (da_id ad)) then inl (14%N, 15%N)
+       else inr (add_direct sst (dk, dv) (mk_dinfo sst sw a (Some (key, ver))))) ->
+  (find_sent (key, ver) (sa_live x) = None ->
+     spec_step cfg d qs sst (OToDirect l KEnt TAny (RRaw key ver)) [0%N] = inr sst /\
+     spec_step cfg d qs sst (OToDirect l KEnt TAny (RRaw key ver)) [2%N; 5%N] = inr sst) ->
+  exists st' obs sst', step cfg d qs st (OToDirect l KEnt TAny (RRaw key ver)) = Some (st', obs) /\ obs <> [254%N] /\
+    spec_step cfg d qs sst (OToDirect l KEnt TAny (RRaw key ver)) obs = inr sst' /\ Rel d st' sst'.
+Proof.
+  intros Hwf HR Hkey Hver Hx HA (HI & Haid & Hcols) Hid Hstep H1 H2. assert (Hk : key32 (key, ver)) by done.
+  set (e := (key, ver)) in *.
+  pose proof (step_inv cfg d qs st (OToDirect l KEnt TAny (RRaw key ver)) Hwf ltac:(done) (r_inv _ _ _ HR)) as Hinv.
+  rewrite Hstep in Hinv |- *.
+  destruct (decide (e ∈ ents s)) as [Hin|Hnin].
+  - apply elem_of_list_lookup in Hin as [dd Hdd].
+    assert (Hd : dd < len s) by (rewrite <- (i_lents s HI); by eapply lookup_lt_Some).
+    rewrite (to_direct_stored cfg s HI dd e Hdd) in Hinv |- *. cbn [ret] in Hinv.
+    destruct (abs_at_some s dd HI Hd) as (e' & row & Ha & He' & _). rewrite Hdd in He'. injection He' as <-.
+    pose proof (a_b1 _ _ _ HA e row ltac:(by exists dd)) as Hfind.
+    pose proof (direct_of_id s dd HI Hd) as Hdid. destruct (direct_of s dd) as [dk dv]. cbn [fst] in Hdid.
+    exists (add_directs st [(dk, dv)]), (1%N :: o_handle (dk, dv)), (add_direct sst (dk, dv) (mk_dinfo sst sw a (Some e))).
+    split_and!; [done|done| |by apply rel_add_directs].
+    unfold o_handle. cbn [fst snd]. rewrite (H1 _ _ _ Hfind).
+    rewrite Hdid, Haid, N.eqb_refl. done.
+  - pose proof (a_b2 _ _ _ HA e Hnin) as Hfind. destruct (H2 Hfind) as [H20 H25].
+    pose proof (resolve_entity_cases cfg s HI e Hk) as Hcase.
+    assert (Htd : to_direct cfg KEnt s e = ROk None \/ to_direct cfg KEnt s e = RPanic PDebug).
+    { unfold to_direct. destruct (resolve_entity cfg s e) as [[[si dd]|]|p|] eqn:Hr; [| | |done].
+      - exfalso. apply Hnin. apply elem_of_list_lookup. exists dd. eapply resolve_entity_exact; [done|done|cbn; congruence|done].
+      - by left.
+      - right. by destruct Hcase as (-> & _). }
+    destruct Htd as [Htd|Htd]; rewrite Htd in Hinv |- *.
+    + exists st, [0%N], sst. by split_and!.
+    + exists st, [2%N; pcode PDebug], sst. by split_and!.
+Qed.
+
+Lemma rel_step_todirect_raw cfg d qs st sst l key ver : wf_decl d -> NoDup (da_id <$> wd_archs d) -> Rel d st sst ->
+  match l with LWorld => True | LArch b => b < length (wd_archs d) end -> (key < 2^32)%N -> (ver < 2^32)%N ->
+  exists st' obs sst', step cfg d qs st (OToDirect l KEnt TAny (RRaw key ver)) = Some (st', obs) /\ obs <> [254%N] /\
+    spec_step cfg d qs sst (OToDirect l KEnt TAny (RRaw key ver)) obs = inr sst' /\ Rel d st' sst'.
+Proof.
+  intros Hwf Hnd HR Hl Hkey Hver. destruct (rel_cur d st sst HR) as (w & sw & Hw & Hsw & Hcw & Hcsw & HWI & Harch).
+  assert (Hk : key32 (key, ver)) by done.
+  destruct (N.eq_dec ver 0) as [->|Hv].
+  { exists st, [5%N], sst. split_and!; [|done| |done].
+    - cbn [step]. rewrite Hcw. cbn [get_href]. unfold make_key. cbn [snd]. by unfold raw_ok, nonzero_new.
+    - cbn [spec_step]. rewrite Hcsw. cbn [fmap option_fmap option_map]. unfold expect_key. cbn [fst snd N.eqb]. unfold lNeqb. by rewrite bool_decide_eq_true_2. }
+  assert (Hraw : raw_ok ver = true) by (unfold raw_ok, nonzero_new; destruct (N.eqb_spec ver 0); done).
+  destruct l as [|b].
+  - destruct (find_arch (wd_archs d) (key_arch_id key)) as [a|] eqn:Hfa.
+    2: { exists st, [2%N; pcode PInvalidType], sst. split_and!; [|done| |done].
+         - cbn [step]. rewrite Hcw. cbn [get_href]. unfold make_key. cbn [snd]. rewrite Hraw. cbn [negb dispatch_world fst]. rewrite Hfa.
+           change world_dispatch_unknown_panics with true. done.
+         - cbn [spec_step]. rewrite Hcsw. cbn [fmap option_fmap option_map]. unfold expect_key. cbn [fst snd].
+           destruct (N.eqb_spec ver 0) as [|_]; [done|]. rewrite Hfa. done. }
+    destruct (find_arch_some _ _ _ Hfa) as (ad & Had & Hid & _).
+    destruct (Harch a ad Had) as (s & x & Hs & Hx & HA & HS).
+    apply (todirect_raw_core cfg d qs st sst LWorld key ver a ad s x sw); try done.
+    + cbn [step]. rewrite Hcw. cbn [get_href]. unfold make_key. cbn [snd]. rewrite Hraw. cbn [negb dispatch_world fst]. by rewrite Hfa, Had, Hs.
+    + intros se dk dv Hf. cbn [spec_step]. rewrite Hcsw. cbn [fmap option_fmap option_map]. unfold expect_key. cbn [fst snd].
+      destruct (N.eqb_spec ver 0) as [|_]; [done|]. rewrite Hfa, Hx. rewrite (a_sync _ _ _ HA), Hf.
+      unfold aid_of. rewrite Had. cbn. done.
+    + intros Hf. split; cbn [spec_step]; rewrite Hcsw; cbn [fmap option_fmap option_map]; unfold expect_key; cbn [fst snd];
+        (destruct (N.eqb_spec ver 0) as [|_]; [done|]); rewrite Hfa, Hx; rewrite (a_sync _ _ _ HA), Hf; done.
+  - destruct (lookup_lt_is_Some_2 _ _ Hl) as [bd Hbd].
+    destruct (Harch b bd Hbd) as (s & x & Hs & Hx & HA & HS).
+    destruct (decide (da_id bd = key_arch_id key)) as [Hid|Hid].
+    2: { exists st, [0%N], sst. split_and!; [|done| |done].
+         - cbn [step]. rewrite Hcw. cbn [get_href]. unfold make_key. cbn [snd]. rewrite Hraw. cbn [negb dispatch_arch fst]. rewrite Hbd.
+           change arch_dispatch_checks_id with true. cbn [id_ok]. unfold conv_ok. cbn [fst].
+           destruct (N.eqb_spec (key_arch_id key) (da_id bd)) as [E|_]; [by rewrite E in Hid|]. done.
+         - cbn [spec_step]. rewrite Hcsw. cbn [fmap option_fmap option_map]. unfold expect_key. cbn [fst snd].
+           destruct (N.eqb_spec ver 0) as [|_]; [done|]. rewrite Hbd.
+           destruct (N.eqb_spec (da_id bd) (key_arch_id key)) as [|_]; [done|]. done. }
+    assert (Hora : (da_id bd =? key_arch_id key)%N = true) by (by apply N.eqb_eq).
+    apply (todirect_raw_core cfg d qs st sst (LArch b) key ver b bd s x sw); try done.
+    + cbn [step]. rewrite Hcw. cbn [get_href]. unfold make_key. cbn [snd]. rewrite Hraw. cbn [negb dispatch_arch fst]. rewrite Hbd.
+      change arch_dispatch_checks_id with true. cbn [id_ok]. unfold conv_ok. cbn [fst].
+      assert ((key_arch_id key =? da_id bd)%N = true) as -> by (apply N.eqb_eq; congruence).
+      cbn [fmap option_fmap option_map]. by rewrite Hbd, Hs.
+    + intros se dk dv Hf. cbn [spec_step]. rewrite Hcsw. cbn [fmap option_fmap option_map]. unfold expect_key. cbn [fst snd].
+      destruct (N.eqb_spec ver 0) as [|_]; [done|]. rewrite Hbd, Hora, Hx. rewrite (a_sync _ _ _ HA), Hf.
+      unfold aid_of. rewrite Hbd. cbn. done.
+    + intros Hf. split; cbn [spec_step]; rewrite Hcsw; cbn [fmap option_fmap option_map]; unfold expect_key; cbn [fst snd];
+        (destruct (N.eqb_spec ver 0) as [|_]; [done|]); rewrite Hbd, Hora, Hx; rewrite (a_sync _ _ _ HA), Hf; done.
+Qed.
+
 Lemma rel_step1 cfg d qs st sst o : wrapping cfg = false -> wf_decl d -> NoDup (da_id <$> wd_archs d) -> Rel d st sst ->
   l1_op d o = true ->
   exists st' obs sst', step cfg d qs st o = Some (st', obs) /\ obs <> [254%N] /\
@@ -395,7 +497,7 @@ Lemma rel_step1 cfg d qs st sst o : wrapping cfg = false -> wf_decl d -> NoDup (
 Proof.
   intros Hwr Hwf Hnd HR Hl1. destruct (l0_op d o) eqn:Hl0; [by apply rel_step|].
   unfold l1_op in Hl1. rewrite Hl0 in Hl1. cbn [orb] in Hl1.
-  destruct o as [| | | | | |l k t r|l k t r| | | | | | | | | | | | | | |]; try done.
+  destruct o as [| | | | | |l k t r|l k t r|l k t r| | | | | | | | | | | | | |]; try done.
   - destruct k; [|by destruct l]. destruct t; try (by destruct l). destruct r as [|?|key ver]; try (by destruct l).
     destruct l as [|b].
     + apply andb_true_iff in Hl1 as [H1 H2]. apply N.ltb_lt in H1, H2. by apply rel_step_destroy_raw.
@@ -409,6 +511,11 @@ Proof.
     + apply andb_true_iff in Hl1 as [H0 H2]. apply andb_true_iff in H0 as [H0 H1]. apply N.ltb_lt in H1, H2. apply Nat.ltb_lt in H0.
       destruct (rel_step_probe_raw_arch cfg d qs st sst b key ver Hnd HR H0 H1 H2) as (obs & Hst & Hne & Hsp).
       exists st, obs, sst. done.
+  - destruct k; [|by destruct l]. destruct t; try (by destruct l). destruct r as [|?|key ver]; try (by destruct l).
+    destruct l as [|b].
+    + apply andb_true_iff in Hl1 as [H1 H2]. apply N.ltb_lt in H1, H2. by apply rel_step_todirect_raw.
+    + apply andb_true_iff in Hl1 as [H0 H2]. apply andb_true_iff in H0 as [H0 H1]. apply N.ltb_lt in H1, H2. apply Nat.ltb_lt in H0.
+      by apply rel_step_todirect_raw.
 Qed.
 
 Lemma rel_run1 cfg d qs ops : wrapping cfg = false -> wf_decl d -> NoDup (da_id <$> wd_archs d) ->
